@@ -139,10 +139,13 @@ def raised(r):
 
 
 def d20_region(s, i):
-    """a with-items task is between items while another task reports pending/paused on its own"""
+    """a with-items task is between items while another task reports pending/paused (or canceled) on
+    its own"""
     if not any(t.get("with") is not None for t in s["def"]["tasks"]):
         return False
-    return any(o["op"] == "report" and o["status"] in ("pending", "paused") for o in s["ops"][:i + 1])
+    return any(o["op"] == "report" and (o["status"] in ("pending", "paused") or
+                                        (o["status"] in ("canceled", "canceling") and o.get("item") is None))
+               for o in s["ops"][:i + 1])
 
 
 def rearrival_region(s, i):
